@@ -155,6 +155,45 @@ def probe_refused_mkcol(seed, limit):
     return None
 
 
+def probe_listing(seed, limit):
+    """C16: a Depth 1 listing of a home set names every sub-collection that exists at that
+    moment - created, created later (same ctag of the parent), deleted - each once."""
+    import re
+
+    s = Server()
+    try:
+        home = "/user/calendars/"
+
+        def listed():
+            r = s.request("PROPFIND", home, {"Depth": "1"})
+            if r["status"] != 207:
+                return None
+            from xml.etree import ElementTree as ET
+
+            ms = ET.fromstring(r["body"])
+            return sorted(urllib.parse.unquote(resp.find("{DAV:}href").text) for resp in ms.findall("{DAV:}response"))
+
+        want = {home, home + "calendar/"}
+        steps = [("MKCOL", "n1/"), ("MKCALENDAR", "n 2/"), ("MKCOL", "n3/"), ("DELETE", "n1/"), ("restart", None), ("MKCOL", "n4/")]
+        for i, (method, name) in enumerate(steps[:limit]):
+            if method == "restart":
+                s.restart()
+            else:
+                r = s.request(method, home + urllib.parse.quote(name))
+                if method == "DELETE":
+                    if r["status"] in (200, 204):
+                        want.discard(home + name)
+                elif r["status"] == 201:
+                    want.add(home + name)
+            got = listed()
+            if got is None or sorted(want) != got:
+                return {"input": {"requests": [[m, home + (n or ""), {}, ""] for m, n in steps[:i + 1]]},
+                        "expected": f"Depth 1 listing of {home}: {sorted(want)}", "observed": f"{got}"}
+    finally:
+        s.close()
+    return None
+
+
 def known_probe_ids():
     """Probe cases recorded as known findings (reported by the check as KNOWN-FINDING, not
     re-raised): read from the committed known_findings.json, never written."""
@@ -353,6 +392,7 @@ GROUPS = {
     "post_location": probe_post_location,
     "traversal": probe_traversal,
     "refused_mkcol": probe_refused_mkcol,
+    "listing": probe_listing,
     "model": probe_model,
 }
 
@@ -362,9 +402,11 @@ def groups_for(fn):
         return ["refused_mkcol", "traversal", "model"]
     if fn and ("_map_to_file_path" in fn or "get_resource" in fn or "CollectionSetResource" in fn):
         return ["traversal", "model"]
+    if fn and ("subdirectories" in fn or "subcollections" in fn or fn.endswith(".members") or "traverse_resource" in fn):
+        return ["listing", "model"]
     if fn and "PostMethod" in fn:
         return ["post_location", "model"]
-    return ["model", "traversal", "refused_mkcol", "post_location"]
+    return ["model", "traversal", "refused_mkcol", "post_location", "listing"]
 
 
 class Http:
@@ -373,7 +415,7 @@ class Http:
         quick = req.get("tier", "quick") == "quick"
         tried = {}
         for g in groups_for(req.get("function")):
-            limit = {"traversal": 60 if quick else 600, "refused_mkcol": 11, "model": 40 if quick else 400, "post_location": 4}[g]
+            limit = {"traversal": 60 if quick else 600, "refused_mkcol": 11, "listing": 6, "model": 40 if quick else 400, "post_location": 4}[g]
             bad = GROUPS[g](seed, limit)
             tried[g] = limit
             if bad:
